@@ -4,7 +4,9 @@ Simulated dimension: queries are issued in the middle of seeded placement / move
 (the world reference of C08 is reused), so agents moved or removed since placement are covered by
 construction; the query geometry itself is generated input on a coarse lattice so that agents on box
 faces, coincident agents and seam-crossing boxes are frequent."""
+import copy
 import math
+import pickle
 
 from ECAgent.Core import Agent, Component, Model
 from ECAgent.Environments import PositionComponent
@@ -27,7 +29,7 @@ COMPONENTS = {"real": ["ECAgent.Environments.SpaceWorld.get_agents_at", "add_age
               "stub": ["agents are plain ECAgent agents created by the harness"]}
 PROBES = ["axis_leeway_larger", "general_leeway_larger", "negative_leeway", "empty_answer", "coincident_agents",
           "query_outside_world", "seam_crossing_box", "agent_on_face", "wrap_world", "moved_since_placement", "rejected_duplicate_add", "model_lifecycle_op", "wrap_mode_switched", "agent_with_position_subclass_component", "agent_is_an_environment", "ops_from_inside_a_timestep",
-          "grid_world_with_half_cell_positions", "infinite_leeway"]
+          "grid_world_with_half_cell_positions", "infinite_leeway", "history_continued_on_a_copy"]
 TECHNIQUE = "deterministic simulation: positional queries inside seeded move/remove histories vs an exact geometric filter (seam-aware in wrapping worlds)"
 LEVEL_TEXT = ("Seeded search over placements, move histories and query boxes; every answer must equal, as an ordered id list, an "
               "exact geometric filter over the reference positions (distance around the seam in wrapping worlds); the query "
@@ -93,6 +95,9 @@ def generate(rng, tier):
         j_ = rng.randint(i_ + 1, len(ops))
         ops.insert(j_, {"op": "leave_step"})
         ops.insert(i_, {"op": "enter_step"})
+    if rng.random() < 0.12:
+        for _ in range(rng.randint(1, 2)):      # checkpoint / branch: the history continues on a deep copy (or pickle round trip)
+            ops.insert(rng.randint(0, len(ops)), {"op": "branch", "how": rng.choice(["deepcopy", "deepcopy", "pickle"]), "k": 0})
     extras = gen_extras(rng, n, lambda ax: lattice(rng, ref, ax, 0))
     return {"world": world, "n": n, "ops": ops, "extras": extras}
 
@@ -122,6 +127,13 @@ def execute(sc, ctx):
             continue
         if kind == "lifecycle" and ctx.in_step and op.get("what") == "step":
             continue          # stepping the model from inside its own timestep is re-entrant stepping: outside the statements
+        if kind == "branch":
+            if not ctx.in_step:
+                blob = (m, env, agents)
+                m, env, agents = pickle.loads(pickle.dumps(blob)) if op.get("how") == "pickle" else copy.deepcopy(blob)
+                ctx.fault("restart.continue_on_copy")
+                ctx.probe("history_continued_on_a_copy")
+            continue
         if kind == "query":
             p = [int(c) for c in op["p"]]
             lw = [math.inf if c == "inf" else int(c) for c in op["l"]]
